@@ -293,6 +293,8 @@ def make_unit(iset, cube_name, cube_pred, memarch='PMSA', nregions=1, props=('C1
                 belongs = lor(belongs, table_unpredictable(iset, instr, oplen, init, mem.init))
             ob = eng.oblige('decode.class', '%s: the word belongs to the architectural encoding of the selected class' % tag, belongs)
             ob.props = [dprop]
+            if ob.status != 'proved':
+                misdecoded_families(eng, tag, kname, iset, instr, oplen, init, mem.init, belongs, dprop)
             # an exception raised by the operation itself (Hyp trap, UNDEFINED in this mode/state) only where the operation's
             # specification has one; data aborts depend on the abstract memory, SVC/SMC are the instruction's purpose
             if took and all(e in ('take_hyp_trap_exception', 'take_undef_instr_exception') for e in took):
@@ -316,6 +318,8 @@ def make_unit(iset, cube_name, cube_pred, memarch='PMSA', nregions=1, props=('C1
                 belongs = lor(belongs, table_unpredictable(iset, instr, oplen, init, mem.init))
             ob = eng.oblige('decode.class', '%s: the word belongs to the architectural encoding of the selected class' % tag, belongs)
             ob.props = [dprop]
+            if ob.status != 'proved':
+                misdecoded_families(eng, tag, kname, iset, instr, oplen, init, mem.init, belongs, dprop)
             def fix(name, w, v):
                 # small decoded fields that the path condition already determines are handed to the spec as constants
                 if w > 2 or not sym.is_sym(v):
@@ -534,6 +538,25 @@ def row_unpred_undef(r, instr, base):
 
 def unpred_possible(u):
     return u is True
+
+
+def misdecoded_families(eng, tag, kname, iset, instr, oplen, init, mem0, belongs, dprop):
+    """a word decoded to class `kname` although it is no encoding of it: the word is then taken away from the class it is a valid
+    encoding of - one obligation per functional family of those classes, so that the violation also counts for the property the
+    misdecoded instruction belongs to (an LDRT executed as a POP is checked with the wrong privilege: C19)"""
+    from spec.cpu import Cpu
+    base = Cpu(dict(init), 'arm' if iset == 'arm' else 'thumb', instr, oplen)
+    base.st['mem'] = mem0
+    base.st['oracle.excl_pass'] = False
+    groups = {}
+    for r, mt in live_rows(iset, instr):
+        if r.cls == kname or not r.family:
+            continue
+        unp, und = row_unpred_undef(r, instr, base)
+        groups.setdefault(tuple(fams(r, None)), []).append((r.cls, lor(belongs, lnot(land(mt, lnot(unp), lnot(und))))))
+    for fs, cl in sorted(groups.items()):
+        ob = eng.oblige_all('decode.class', '%s: the word is not a valid encoding of another class' % tag, cl)
+        ob.props = [dprop] + list(fs)
 
 
 def hidden_possible(k):
